@@ -4,6 +4,7 @@
 //! Case lines (first word selects the sub-model; strings are lower-case hex of their UTF-8
 //! bytes, `-` = empty):
 //!   q <protected> <in1> <in2> …      Quoter::new(b"", protected).requote(in_k) for every k
+//!   u <path> …                       Url::new(Uri).path() (DEFAULT_QUOTER of url.rs, protected `%/+`)
 //!   m <F|P> <pats> <path>…           ResourceDef::new / ::prefix; per path is_match/find_match/capture_match_info
 //!   b <F|P> <pats> <val>…            resource_path_from_iter, then capture_match_info on the built path
 //!   bm <F|P> <pats> <name>=<val>…    resource_path_from_map (later duplicates win, as in HashMap::insert)
@@ -11,7 +12,7 @@
 //!     <pats> = `S <pat>` (Patterns::Single) | `L<n> <pat>×n` (Patterns::List)
 use std::panic::{catch_unwind, AssertUnwindSafe};
 
-use actix_router::{Path, Patterns, Quoter, ResourceDef};
+use actix_router::{Path, Patterns, Quoter, ResourceDef, Url};
 
 use super::Prop;
 use crate::common::{hex, unhex, CaseResult, Ctx, Rng};
@@ -21,7 +22,8 @@ per path is_match / find_match / capture_match_info with offsets and values: exh
 and 3 segments from a menu of 6 (static /a / a -, {x}, {x:\\d+}, {x:[ab]{2}}, {x:.*}, {x:[^/]*}, {x:a?}, tail {t}*) x all paths over {a,1,/,%,2,F} \
 up to length 4 (5 in thorough), pattern lists of 0/1/2, random regexes of the modelled fragment x sampled+mutated Unicode paths, malformed patterns, \
 long paths up to 65535 bytes; b/bm-cases: resource_path_from_iter / from_map then capture; k-cases: chained captures on one Path; \
-an m/b/k case is non-trivial if at least one path matched (b: values legal for the pattern); q-cases: Quoter::requote on all 1- and 2-byte strings, all 3-byte strings starting with '%', \
+an m/b/k case is non-trivial if at least one path matched (b: values legal for the pattern); u-cases: Url::new(Uri).path() (the DEFAULT_QUOTER) \
+on every http-valid path over {/,%,2,5,F,f,B,4,a} up to length 5 plus random escape-rich paths; q-cases: Quoter::requote on all 1- and 2-byte strings, all 3-byte strings starting with '%', \
 all strings over {%,2,F,5,/,a,x} up to length 6 (batched 64 inputs per line) for the protected sets {}, {%/+}, {/}, {+}, \
 plus seeded random byte strings (escape-dense) up to 2000 bytes and random protected sets (incl. non-ASCII => panic); \
 a q-case is non-trivial if at least one input was changed by decoding; distinct = distinct (case, output) hashes";
@@ -128,6 +130,75 @@ fn run_q(words: &[&str]) -> CaseResult {
     res.nontrivial = changed > 0;
     res.output = outs.join(" ");
     res
+}
+
+/// `u <path>…`: the quoter that `Url::new` really uses (url.rs `DEFAULT_QUOTER`)
+fn run_u(words: &[&str]) -> CaseResult {
+    let mut res = CaseResult::ok(String::new()).tag("u");
+    let mut outs = Vec::new();
+    let mut changed = 0;
+    for w in &words[1..] {
+        let Some(p) = unhex_str(w) else {
+            outs.push("bad-case".to_owned());
+            continue;
+        };
+        let Ok(uri) = http::Uri::try_from(p.as_str()) else {
+            outs.push("bad-uri".to_owned());
+            continue;
+        };
+        let url = Url::new(uri);
+        let got = url.path().to_owned();
+        let (want, n) = ref_decode(b"%/+", p.as_bytes());
+        if n > 0 {
+            changed += 1;
+        }
+        if got.as_bytes() != &want[..] {
+            res = res.fail("url-path-decoding", format!("Url::new({:?}).path() = {:?}, reference {:?}", p, got, String::from_utf8_lossy(&want)));
+        }
+        // the segment structure is untouched: same number of '/', and each segment decodes on its own
+        let a: Vec<&str> = got.split('/').collect();
+        let b: Vec<Vec<u8>> = p.split('/').map(|s| ref_decode(b"%/+", s.as_bytes()).0).collect();
+        if a.len() != b.len() || a.iter().zip(&b).any(|(x, y)| x.as_bytes() != &y[..]) {
+            res = res.fail("url-slash-moved", format!("Url::new({:?}).path() = {:?}: '/' structure changed", p, got));
+        }
+        outs.push(hs(&got));
+    }
+    res.nontrivial = changed > 0;
+    res.output = outs.join(" ");
+    res
+}
+
+fn gen_u(ctx: &Ctx, rng: &mut Rng, cases: &mut Vec<String>) {
+    // exhaustive over a small alphabet, only what http::Uri accepts as a path; escapes stay ASCII
+    // so that `from_utf8_lossy` (not modelled) is the identity
+    const AL: &[char] = &['/', '%', '2', '5', 'F', 'f', 'B', '4', 'a'];
+    let mut all = all_strings(AL, 5);
+    for _ in 0..ctx.budget(3000) {
+        let n = rng.range(1, 40);
+        let mut s = String::from("/");
+        for _ in 0..n {
+            match rng.below(6) {
+                0 => s.push_str(*rng.pick(&["%2F", "%2f", "%25", "%2B", "%41", "%7e", "%2", "%", "%G1", "%20", "%3A", "%C3%A9", "%E6%97%A5"][..])),
+                1 => s.push('/'),
+                _ => s.push(*rng.pick(&['a', 'b', '1', '-', '.', '_', '~', '+', ':', '@'][..])),
+            }
+        }
+        all.push(s);
+    }
+    let ok: Vec<String> = all
+        .into_iter()
+        .filter(|s| s.starts_with('/') && http::Uri::try_from(s.as_str()).map_or(false, |u| u.path() == s))
+        // `requote_str_lossy` replaces invalid UTF-8 by U+FFFD (not modelled): keep decodings that are valid UTF-8
+        .filter(|s| String::from_utf8(ref_decode(b"%/+", s.as_bytes()).0).is_ok())
+        .collect();
+    for chunk in ok.chunks(64) {
+        let mut line = String::from("u");
+        for p in chunk {
+            line.push(' ');
+            line.push_str(&hs(p));
+        }
+        cases.push(line);
+    }
 }
 
 fn gen_q(ctx: &Ctx, rng: &mut Rng, cases: &mut Vec<String>) {
@@ -1296,6 +1367,7 @@ fn gen(ctx: &Ctx) -> Vec<String> {
     let mut rng = Rng::new(ctx.seed);
     let mut cases = Vec::new();
     gen_q(ctx, &mut rng, &mut cases);
+    gen_u(ctx, &mut rng, &mut cases);
     gen_exhaustive(ctx, &mut cases);
     gen_random(ctx, &mut rng, &mut cases);
     cases
@@ -1305,6 +1377,7 @@ fn run(line: &str) -> CaseResult {
     let words: Vec<&str> = line.split_ascii_whitespace().collect();
     match words.first().copied() {
         Some("q") if words.len() >= 2 => run_q(&words),
+        Some("u") => run_u(&words),
         Some("m") if words.len() >= 3 => run_m(words[1] == "P", &words[2..]),
         Some("b") if words.len() >= 3 => run_b(words[1] == "P", &words[2..]),
         Some("bm") if words.len() >= 3 => run_bm(words[1] == "P", &words[2..]),
